@@ -268,7 +268,7 @@ def run_case(case):
                    'testparticle_type': 0, 'exit_max_distance': r.choice([0.0, 1e6])}[which]
             op = dict(op='set', which=which, val=val)
             setattr(sim, which, val)
-        elif x < 0.82 and not has_var[0] and N >= 2 and sim.integrator in ('ias15', 'bs'):
+        elif x < 0.83 and not has_var[0] and N >= 2 and sim.integrator in ('ias15', 'bs'):
             op = dict(op='add_variation')
             v = sim.add_variation()
             v.particles[1].x = 1.0
@@ -323,6 +323,11 @@ def run_case(case):
     sizes_prev = None
     k = -1
     try:
+        if case['hseed'] % 2:
+            # the first snapshot is not always taken at t=0: after a few steps the integrator's internal arrays (IAS15 predictor and
+            # compensated-summation arrays, WHFast p_jh, MERCURIUS dcrit, ...) exist and are part of blob 0, against which every later delta is encoded
+            sim.steps(r.choice([1, 2, 5]))
+            counters['first_snapshot_after_steps'] = 1
         manual_snapshot()       # blob 0
         first_sizes = field_sizes()
         sizes_prev = dict(first_sizes)
